@@ -70,7 +70,12 @@ class DumperBase(DataStreamProcessor):
             counter += 1
             yield row
         DumperBase.inc_attr(self.datapackage.descriptor, self.datapackage_rowcount, counter)
-        DumperBase.inc_attr(resource.res.descriptor, self.resource_rowcount, counter)
+        # record the count in the package's own copy of the resource descriptor (the one that gets written)
+        resource_descriptor = resource.res.descriptor
+        for descriptor in self.datapackage.descriptor['resources']:
+            if descriptor['name'] == resource.res.descriptor['name']:
+                resource_descriptor = descriptor
+        DumperBase.inc_attr(resource_descriptor, self.resource_rowcount, counter)
         resource.res.commit()
         self.datapackage.commit()
 
